@@ -118,7 +118,8 @@ def gen_classes(rng, cfg):
     d, m = build(host=False, hdrs=[(b"A", b" ", b"b")]); rej("missing-host", d, 400, [m["head_end"] - 1, m["head_end"] - 2])
     d, m = build(host=False, ver=b"HTTP/1.0", hdrs=[(b"A", b" ", b"b")]); acc("no-host-needed-1.0", d, v(b"GET", b"/x", "10", {b"a": b"b"}), [m["head_end"] - 1])
     # Content-Length
-    for bad in (b"12a", b"-1", b"1 2", b"0x10", b"99999999999999999999", b"+1", b"1,1"):
+    for bad in (b"12a", b"-1", b"1 2", b"0x10", b"99999999999999999999", b"+1", b"1,1", b"18446744073709551621", b"18446744073709551616",
+                b"36893488147419103237", b"9223372036854775808", b"184467440737095516160"):
         if len(bad) + 19 > lim["line"] or len(bad) + 19 > lim["hlen"]:
             continue
         d, m = build(meth=b"POST", hdrs=[(b"Content-Length", b" ", bad)], body=b"z"); rej("bad-content-length", d, 400, [m["head_end"], m["head_end"] - 1])
@@ -143,6 +144,8 @@ def gen_classes(rng, cfg):
             d, m = chunked([bad]); rej("bad-chunk-size", d, 400, [len(d), len(d) - 1, m["head_end"] + 1])
         d, m = chunked([b"2\r\nab", b"XX"]); rej("bad-chunk-terminator", d, 400, [len(d) - 2, len(d) - 1])
         d, m = chunked([b"2\r\nab", b"\rX"]); rej("bad-chunk-terminator", d, 400, [len(d) - 1, len(d) - 2])
+        for term in (b"\r\r\n", b"\n\r\n" if cfg.strict else b"\r\r", b"\rab", b"X\r\n", b"\r\r\r\n"):
+            d, m = chunked([b"2\r\nab", term, b"0\r\n\r\n"]); rej("bad-chunk-terminator", d, 400, [len(d) - 5 - len(term) + i for i in range(len(term) + 1)])
         if mc <= 2000 and mk >= 1:
             parts, total = [], 0
             while total <= mc:
@@ -191,17 +194,22 @@ def gen(chk):
         cfg = G.rand_cfg(rng, "T" if k % 2 == 0 else "D")
         for cls, data, exp, hot in gen_classes(rng, cfg):
             n = len(data)
-            plist = [(), tuple(range(1, n))]
-            for h in hot:
+            plist = [()]
+            big = n > 6000            # the extracted model is quadratic in the line length: fewer partitions for very long messages
+            if n <= 1500:
+                plist.append(tuple(range(1, n)))     # byte-wise
+            elif not big:
+                plist.append(tuple(range(16, n, 16)))
+            for h in hot[:2] if big else hot:
                 if 0 < h < n:
                     plist.append((h,))
             # line by line
             plist.append(tuple(i + 1 for i in range(n - 1) if data[i] == 10))
             if n <= 80:
                 plist += [(c,) for c in range(1, n)]
-            else:
+            elif not big:
                 plist += [(c,) for c in rng.sample(range(1, n), 25)]
-            for _ in range(3):
+            for _ in range(1 if big else 3):
                 kk = rng.randint(1, min(5, n - 1))
                 plist.append(tuple(sorted(rng.sample(range(1, n), kk))))
             seen = set()
